@@ -201,6 +201,14 @@ func (l *irLoader) compileFilterFuncs(filename string, irfile *ir.File) error {
 		return fmt.Errorf("parse custom decls: %w", err)
 	}
 
+	// A file loaded from IR has no type-checked rules package; the package
+	// of its declarations stands in for it, so a type the rules file declares
+	// (Implements("gorules.T"), HasMethod("gorules.T.M")) is found like it is
+	// when the same file is loaded from source.
+	if l.pkg == nil {
+		l.pkg = f.Pkg
+	}
+
 	// Calls are bound by name while a function is being compiled.
 	// Unbind the names this file declares, so a call that precedes the
 	// declaration is reported instead of being silently bound to an
